@@ -54,10 +54,7 @@ Theorem C18_ground_instances :
     In (aid, args) (all_insts P sigs) <->
     exists sig, In (aid, sig) sigs /\
                 Forall2 (fun t v => exists o, v = VObj o /\ In o (objs_of P t)) sig args.
-Proof.
-  intros P sigs aid args. rewrite in_all_insts.
-  split; intros (sig & H1 & H2); exists sig; (split; [exact H1 | apply in_arg_tuples, H2]).
-Qed.
+Proof. exact ground_instances_spec. Qed.
 Print Assumptions C18_ground_instances.
 
 (* plan round trip: the comparison used for written/parsed plans is equality of the action instances *)
